@@ -335,6 +335,10 @@ def strata(tier):
         (L("value", "keys_contain_any_of", "a", "b"), L("value", "keys_contain_any_of", "b", "a"), "arg-order"),
         (L("value", "in_", [1, 2]), L("value", "in_", [2, 1]), "arg-order"),
         (L("value", "in_range", 1, 5), L("value", "in_range", 5, 1), "arg-order"),
+        ({"c": "leaf", "kind": "value", "pre": None, "fn": "items_contain", "args": [], "kwargs": {"a": 1, "b": 2, "c": None}},
+         {"c": "leaf", "kind": "value", "pre": None, "fn": "items_contain", "args": [], "kwargs": {"a": 1, "b": 3, "c": None}}, "arg-value"),
+        (L("value", "equal_to", {"a": 1, "b": {"x": 1, "y": 2}}), L("value", "equal_to", {"a": 1, "b": {"x": 1, "y": 3}}), "arg-value"),
+        (L("value", "in_", [{"k": 1, "j": 2}, 5]), L("value", "in_", [{"k": 1, "j": 3}, 5]), "arg-value"),
         # long argument lists that differ in one item only (items whose hashes collide: hash(-1) == hash(-2); 2**61-1 wraps to 0)
         (L("value", "in_", [-1] + list(range(70))), L("value", "in_", [-2] + list(range(70))), "arg-value:long-list"),
         (L("value", "in_", list(range(100)) + [-1]), L("value", "in_", list(range(100)) + [-2]), "arg-value:long-list"),
@@ -442,8 +446,23 @@ def float_args(t, out):
     return out
 
 
+def reorder_mappings(t):
+    """the same term with the entries of every keyword mapping and every mapping-valued argument in reverse order"""
+    if type(t) is dict:
+        items = [(k, reorder_mappings(v)) for k, v in t.items()]
+        if "c" in t or "p" in t or "parts" in t or "$path" in t or "$type" in t or "prim" in t:
+            return dict(items)  # a node of the term grammar: keep its shape, reorder inside
+        return dict(reversed(items))
+    if type(t) is list:
+        return [reorder_mappings(v) for v in t]
+    return t
+
+
 def run(case, ctx):
     kind, xt, yt, atom, probes = case["kind"], case["x"], case["y"], case["atom"], case["probes"]
+    xr = reorder_mappings(xt)
+    if kind in ("rule", "schema") or repr(xr) == repr(xt):
+        xr = None
     fl = sorted(set(float_args(xt, []) + float_args(yt, [])))
     if fl and kind == "cond":
         probes = list(probes) + [fl + [1, "a"], {"a": fl[0], "b": fl[-1]}]
@@ -455,6 +474,14 @@ def run(case, ctx):
         ctx.count("skipped:x-not-constructible:" + objs.type)
         return
     x1, x2, xc = objs
+    if xr is not None:
+        okr, xro = call(mk, xr)
+        if okr:
+            ctx.count("reordered-mapping-copies")
+            okq, eqr = call(lambda: (x1 == xro, xro == x1))
+            if not okq or eqr != (True, True):
+                ctx.violate(f"C14/reordered≠/{kind}", f"the same definition with the entries of its mapping arguments / keywords in another order "
+                            f"compares unequal ({eqr if okq else eqr!r}):\n {x1!r}\n {xro!r}")
     oky, y = call(mk, yt)
     pairs = {"rebuilt": (x1, x2), "commuted": (x1, xc)}
     if oky:
